@@ -278,7 +278,7 @@ func verif_golden_fields_LoginResp() {
 }
 
 //verif:lemma
-//verif:props C17
+//verif:props C17 C18
 func verif_golden_fields_NewProxy() {
 	verif.Assert(verif.FieldTag[NewProxy]("ProxyName") == `json:"proxy_name,omitempty"` && verif.FieldType[NewProxy]("ProxyName") == "string", "ProxyName")
 	verif.Assert(verif.FieldTag[NewProxy]("ProxyType") == `json:"proxy_type,omitempty"` && verif.FieldType[NewProxy]("ProxyType") == "string", "ProxyType")
@@ -306,7 +306,7 @@ func verif_golden_fields_NewProxy() {
 }
 
 //verif:lemma
-//verif:props C17
+//verif:props C17 C18
 func verif_golden_fields_NewProxyResp() {
 	verif.Assert(verif.FieldTag[NewProxyResp]("ProxyName") == `json:"proxy_name,omitempty"` && verif.FieldType[NewProxyResp]("ProxyName") == "string", "ProxyName")
 	verif.Assert(verif.FieldTag[NewProxyResp]("RemoteAddr") == `json:"remote_addr,omitempty"` && verif.FieldType[NewProxyResp]("RemoteAddr") == "string", "RemoteAddr")
@@ -339,7 +339,7 @@ func verif_golden_fields_StartWorkConn() {
 }
 
 //verif:lemma
-//verif:props C17
+//verif:props C17 C18
 func verif_golden_fields_NewVisitorConn() {
 	verif.Assert(verif.FieldTag[NewVisitorConn]("RunID") == `json:"run_id,omitempty"` && verif.FieldType[NewVisitorConn]("RunID") == "string", "RunID")
 	verif.Assert(verif.FieldTag[NewVisitorConn]("ProxyName") == `json:"proxy_name,omitempty"` && verif.FieldType[NewVisitorConn]("ProxyName") == "string", "ProxyName")
